@@ -145,7 +145,13 @@ def generate(tape, tier="quick", force_regime=None):
                 chain.insert(tape.draw(len(chain) + 1), gen_adapter(tape, PASS))
             via_pull = tape.chance(1, 4)
             if tape.chance(1, 4) and not via_pull:
-                chain.insert(0, gen_adapter(tape, ["next", "prev", "linear", "step"]))
+                # (an averaging adapter upstream of the delays sees the clamped request for the initial time again and
+                # again while more data arrives: it answers with the initial value)
+                # (... as long as its source starts with the composition: a later-starting source publishes its initial
+                # value twice and the repeated request is then not for the first buffered entry - finam answers "zero-
+                # length interval", which C12 leaves open)
+                chain.insert(0, gen_adapter(tape, ["next", "prev", "linear", "step"] +
+                                            (["avg"] if comps[ring[-1]]["start"] == 0 else [])))
         elif regime == "d":
             chain = passthrough(buffering_ok=False)
             chain.insert(tape.draw(len(chain) + 1), {"kind": "delay_push"})
